@@ -208,10 +208,12 @@ def run_cell(cfg, states, mask, sources, acc, gwf, messages):
                     'outcome': 'pass' if got else 'ApprovalRequired'})
 
 
-def source_assignments(mask, tier, rot):
-    """All assignments in the thorough tier; one rotating assignment in the
-    quick tier."""
-    if tier == 'thorough':
+def source_assignments(mask, tier, rot, cfg=None):
+    """All assignments in the thorough tier for the configurations with
+    at most one required peer (elsewhere, and in the quick tier, one rotating
+    assignment: every (option, source) pair still meets every value of the
+    other dimensions)."""
+    if tier == 'thorough' and (cfg is None or cfg[0] <= 1):
         doms = []
         for bit in range(3):
             doms.append(range(3) if mask >> bit & 1 else (0,))
@@ -241,7 +243,7 @@ def run_shard(spec, acc):
                 continue          # quick: every other user-state vector
             for mask in range(32):
                 rot += 1
-                for sources in source_assignments(mask, tier, rot):
+                for sources in source_assignments(mask, tier, rot, cfg):
                     run_cell(cfg, states, mask, sources, acc, gwf, messages)
     # system-level companion: sampled cells on real repositories
     from vf.world import gates_world
